@@ -29,13 +29,29 @@ void put_hs(const char *s);
 char *parse_hs(const char *tok, size_t *len);
 void xx_new_config(void);
 void xx_delete_config(void);
+void xx_reload_config(void);
 int xx_op(int n, char **tok);
 }
 
 static Config *cx = NULL;
 
+// the last ParseException caught, kept as a copy (as a program that stores or rethrows it would), with what it
+// reported when it was caught: it must keep reporting that, whatever happens to the Config afterwards
+static ParseException *kept_pe = NULL;
+static std::string kept_file, kept_err;
+static int kept_line = 0, kept_has_file = 0;
+static void check_kept(void)
+{
+  if(!kept_pe) return;
+  const char *f = kept_pe->getFile(), *e = kept_pe->getError();
+  int ok = (kept_pe->getLine() == kept_line) && ((f != NULL) == (kept_has_file != 0)) && (!f || kept_file == f) && e && kept_err == e;
+  if(!ok) fputs("L EXCBAD\n", out);
+}
+static void drop_kept(void) { delete kept_pe; kept_pe = NULL; }
+
 void xx_new_config(void) { cx = new Config(); drv_cfgp = cx->_config; }
-void xx_delete_config(void) { delete cx; cx = NULL; drv_cfgp = NULL; }
+void xx_delete_config(void) { delete cx; cx = NULL; drv_cfgp = NULL; check_kept(); drop_kept(); }
+void xx_reload_config(void) { Config *old = cx; cx = new Config(); drv_cfgp = cx->_config; delete old; check_kept(); drop_kept(); }
 
 static uint64_t dbits(double d) { uint64_t b; memcpy(&b, &d, 8); return b; }
 static double bdbl(uint64_t b) { double d; memcpy(&d, &b, 8); return d; }
@@ -56,6 +72,10 @@ static void put_throw(const ConfigException &e)
   if(const ParseException *p = dynamic_cast<const ParseException *>(&e))
   {
     fputc(' ', out); put_hs(p->getFile()); fprintf(out, " %d ", p->getLine()); put_hs(p->getError());
+    check_kept(); drop_kept();         /* the earlier one has survived a re-read of its Config */
+    kept_pe = new ParseException(*p);
+    kept_has_file = p->getFile() != NULL; kept_file = p->getFile() ? p->getFile() : ""; kept_line = p->getLine();
+    kept_err = p->getError() ? p->getError() : "";
   }
   fputc('\n', out);
 }
@@ -268,15 +288,16 @@ int xx_op(int n, char **tok)
       fputs("R unit\n", out); return 1;
     }
     if(n == 1 && IS("xinit")) { fputs("R unit\n", out); return 1; }
-    if(n == 1 && IS("xclear")) { cx->clear(); fputs("R unit\n", out); return 1; }
+    if(n == 1 && IS("xclear")) { cx->clear(); check_kept(); fputs("R unit\n", out); return 1; }
+    if(n == 1 && IS("xtemp")) { { Config tmp; tmp.getRoot().add("t", Setting::TypeInt) = 1; } fputs("R unit\n", out); return 1; }   /* a second Config with a nested lifetime */
     if(n == 3 && IS("xsetfmt"))
     {
       config_setting_t *cs = resolve(tok[1]);
       if(!cs) { fputs("R badhandle\n", out); return 1; }
       Setting::wrapSetting(cs).setFormat((Setting::Format)atoi(tok[2])); fputs("R unit\n", out); return 1;
     }
-    if(n == 2 && IS("xreads")) { char *t = parse_hs(tok[1], NULL); std::string txt(t ? t : ""); free(t); cx->readString(txt); fputs("R unit\n", out); return 1; }
-    if(n == 2 && IS("xreadf")) { char *t = parse_hs(tok[1], NULL); std::string p(t ? t : ""); free(t); cx->readFile(p.c_str()); fputs("R unit\n", out); return 1; }
+    if(n == 2 && IS("xreads")) { char *t = parse_hs(tok[1], NULL); std::string txt(t ? t : ""); free(t); cx->readString(txt); check_kept(); fputs("R unit\n", out); return 1; }
+    if(n == 2 && IS("xreadf")) { char *t = parse_hs(tok[1], NULL); std::string p(t ? t : ""); free(t); cx->readFile(p.c_str()); check_kept(); fputs("R unit\n", out); return 1; }
     if(n == 2 && IS("xwritef")) { char *t = parse_hs(tok[1], NULL); std::string p(t ? t : ""); free(t); cx->writeFile(p.c_str()); fputs("R unit\n", out); return 1; }
   }
   catch(const ConfigException &e) { put_throw(e); return 1; }
